@@ -17,11 +17,11 @@ pub const RULE13: &str = "case = (alphabet, matrix, background and object reuse 
 pub const REQUIRED12: &[&str] = &[
     "alphabet.dna", "alphabet.protein", "bg.uniform", "bg.nonuniform", "query.below_min", "query.far_below_min",
     "query.above_max", "query.attainable", "query.attainable_eps", "query.random", "iterations.checked", "converged.observed",
-    "pvalue.checked", "matrix.finite_wildcard_column", "bg.zero_frequency_symbols", "bg.wildcard_weighted", "bg.skewed_from_counts", "matrix.flat_row", "object.reused_after_other_queries", "matrix.row_min_in_(0,0.1)",
+    "pvalue.checked", "matrix.finite_wildcard_column", "bg.zero_frequency_symbols", "bg.wildcard_weighted", "bg.skewed_from_counts", "matrix.flat_row", "matrix.strongly_negative_cell", "object.reused_after_other_queries", "matrix.row_min_in_(0,0.1)",
 ];
 pub const REQUIRED13: &[&str] = &[
     "alphabet.dna", "alphabet.protein", "bg.uniform", "bg.nonuniform", "p.attainable_tail", "p.between_tails",
-    "p.log_uniform", "p.smallest_tails", "iterations.checked", "converged.observed", "score.checked", "lower_side.checked", "matrix.finite_wildcard_column", "bg.zero_frequency_symbols", "bg.wildcard_weighted", "bg.skewed_from_counts", "matrix.flat_row", "object.reused_after_other_queries", "matrix.row_min_in_(0,0.1)",
+    "p.log_uniform", "p.smallest_tails", "iterations.checked", "converged.observed", "score.checked", "lower_side.checked", "matrix.finite_wildcard_column", "bg.zero_frequency_symbols", "bg.wildcard_weighted", "bg.skewed_from_counts", "matrix.flat_row", "matrix.strongly_negative_cell", "object.reused_after_other_queries", "matrix.row_min_in_(0,0.1)",
 ];
 
 pub struct Setup<A: Alphabet> {
@@ -119,6 +119,13 @@ pub fn setup<A: Alphabet>(rng: &mut Rng, rep: &mut Report, max_m: usize) -> Opti
                     for x in r.iter_mut().take(k - 1) {
                         *x += 0.5 - lo;
                     }
+                }
+                6 if rng.chance(0.5) => {
+                    // one strongly negative (finite) cell: the integer scores of the fine steps
+                    // grow past 2^24 (a "never" letter written as -1000 instead of -inf)
+                    let j = rng.below(k - 1);
+                    r[j] = *rng.pick(&[-1000.0f32, -500.0, -2000.0]);
+                    rep.cover("matrix.strongly_negative_cell");
                 }
                 5 => {
                     // (nearly) flat over the regular symbols: one integer score at the coarse steps
@@ -428,6 +435,13 @@ fn case12<A: Alphabet>(case: u64, rng: &mut Rng, rep: &mut Report, alpha: &str, 
                 // another order, sums differ in the last place and the exact-equality convergence test
                 // may stop one step earlier or later; every step obeys the bounds of the coarsest one)
                 if let Ok(pv) = guard(|| t.pvalue(s)) {
+                    // ... but legitimate differences are confined to the last place: whichever step
+                    // converges, its point range lies inside the point range observed before. The
+                    // answer of the reused object must be the converged bound up to rounding
+                    if (pv - lower).abs() > 1e-9 * lower.abs().max(1e-300) + 1e-300 {
+                        rep.violate("c12.final_pvalue", case, format!("pvalue({}) on the reused object = {} but the refinement just observed on the same object converged on {}", s, pv, lower), st.witness(alpha, J::obj().set("score", J::f(s))));
+                        return;
+                    }
                     let lo = ex.sf(s + (m + 1.0) * 0.1);
                     let hi = ex.sf(s - (m + 2.0) * 0.1);
                     if lt(pv, lo, noise) || gt(pv, hi, noise) {
